@@ -619,6 +619,45 @@ def fam_ovflate(rnd, i):
     return steps
 
 
+def fam_cwd(rnd, i):
+    """The watched directory is the working directory itself, added as ".", "./" or "sub/.."; entries change, then
+    the directory is removed from outside and the process leaves it (only then the kernel reports DELETE_SELF)."""
+    w = "w1"
+    steps = [fs("mkdir", ("w",)), fs("mkdir", ("w", "sub")), fs("create", ("w", "n1")), {"s": "chdir", "p": ["w"]}, new(w, rnd.choice([0, 0, 4]))]
+    a = rnd.choice([{"abs": False, "c": []}, {"abs": False, "c": ["."]}, {"abs": False, "c": [".", ""]}, {"abs": False, "c": ["sub", ".."]}])
+    steps.append({"s": "call", "w": w, "t": "t1", "op": "add", "arg": a})
+    if rnd.random() < 0.3:
+        steps.append({"s": "call", "w": w, "t": "t1", "op": "add", "arg": {"abs": False, "c": ["n1"]}})
+    for st in [fs("create", ("w", "n2")), fs("write", ("w", "n1")), fs("chmod", ("w", "n1")), fs("rename", ("w", "n2"), to=("w", "n3")), fs("unlink", ("w", "n3")),
+               fs("chmod", ("w",))][:rnd.randint(2, 6)]:
+        steps.append(st)
+        if rnd.random() < 0.6:
+            steps.append(drain(w))
+    steps += [drain(w), call(w, "watchlist"), obs(w), fs("rmrf", ("w",)), {"s": "chdir", "p": []}, drain(w), call(w, "watchlist"), obs(w),
+              {"s": "call", "w": w, "t": "t1", "op": "remove", "arg": a}, call(w, "close"), drain(w), obs(w)]
+    return steps
+
+
+def fam_readfault(rnd, i):
+    """Fault: read(2) on the inotify descriptor fails once (pending error, reader parked sending it), then ordinary
+    activity and Close: the error is reported, the stream goes on, Close releases everything."""
+    w = "w1"
+    steps = [fs("mkdir", ("d1",)), fs("create", ("d1", "n1")), new(w, rnd.choice([0, 0, 2])), call(w, "add", ("d1",), "rel")]
+    if rnd.random() < 0.5:
+        steps += [fs("chmod", ("d1", "n1")), drain(w)]
+    steps += [{"s": "fault", "w": w, "recurse": True}, {"s": "fault", "w": w, "recurse": False}]
+    mode = rnd.choice(["drain_then_close", "close_pending", "calls_pending", "late_close"])
+    if mode == "drain_then_close":
+        steps += [drain(w), fs("create", ("d1", "n2")), drain(w), call(w, "watchlist"), obs(w), call(w, "close"), drain(w), obs(w)]
+    elif mode == "close_pending":
+        steps += [call(w, "close"), drain(w), obs(w)]
+    elif mode == "calls_pending":
+        steps += [call(w, "watchlist"), call(w, "add", ("d1", "n1"), "rel"), call(w, "remove", ("d1", "n1"), "rel"), drain(w), call(w, "close"), drain(w), obs(w)]
+    else:
+        steps += [drain(w), obs(w), fs("chmod", ("d1", "n1")), drain(w), obs(w), call(w, "close"), drain(w), obs(w)]
+    return steps
+
+
 def fam_moves(rnd, i, depth=30):
     """Rename correlation: moves within / between watched directories, in from and out to
     unwatched places (leaving unmatched cookies behind), plain creates and hard links in between."""
@@ -1240,7 +1279,7 @@ FAMS = {
     "cycle": fam_cycle, "newclose": fam_newclose, "overflow": fam_overflow, "moves": fam_moves, "multi": fam_multi,
     "absorb": fam_absorb, "withops": fam_withops, "repoint": fam_repoint, "stall": fam_stall, "spell": fam_spell,
     "endwatch": fam_endwatch, "paced": fam_paced, "ovfstall": fam_ovfstall, "ovflate": fam_ovflate,
-    "parmoves": fam_parmoves, "multix": fam_multix, "recurse": fam_recurse,
+    "parmoves": fam_parmoves, "multix": fam_multix, "recurse": fam_recurse, "cwd": fam_cwd, "readfault": fam_readfault,
     "kqdir": fam_kqdir, "kqsym": fam_kqsym, "kqburst": fam_kqburst, "kqcycle": fam_kqcycle, "kqfault": fam_kqfault, "kqnested": fam_kqnested,
 }
 
